@@ -822,6 +822,8 @@ class Eval:
             return t
         if t[0] == "none":
             return None
+        if t[0] == "agg" and t[2] in ("Ok", "Some") and t[3]:
+            return ("opt", t[3][0][1], frozenset())
         if t[0] == "phi":
             # e.g. the value of an inlined helper that returns Some(x) on one path and None on others
             pls, conds, ok = [], set(), True
@@ -869,6 +871,14 @@ class Eval:
             if a0[0] == "none":
                 if m in ("map", "and_then", "filter", "zip"):
                     return ("none",)
+            if a0[0] == "agg" and a0[2] == "Err" and cid.startswith("std::result::Result::"):
+                # a value KNOWN to be Err: success combinators pass it through unchanged
+                if m in ("map", "and_then"):
+                    return a0
+                if m == "map_err" and len(args) > 1:
+                    return ("agg", a0[1], "Err", (("0", self.apply(args[1], [a0[3][0][1]], site, env)),))
+            if a0[0] == "agg" and a0[2] == "Ok" and m == "map_err":
+                return a0
             o = self.as_opt(a0) if a0[0] != "none" else None
             if o is None:
                 return None
